@@ -93,9 +93,11 @@ CLAIMS = {
    text=("The data-structure half of the property by contracts on the real mesh editing code over a full model of std::set<edge>: invariants of the "
          "free-slot queues and of the edge set are required and preserved by add_node, delete_face, add_face (which never creates an edge with three "
          "faces: it throws), get_edge; generate_edge_set makes every side of every triangle a stored edge listing it (arbitrary face); rebase rebuilds "
-         "the edge set after every renumbering; split_edge requests four triangles that join the new node to the four old ones and are wound like the "
-         "triangle they replace (thorough tier: callee preconditions at every call site, split edge gone, four new two-faced edges, labels). Unbounded "
-         "in mesh size. The global statements (two faces per edge everywhere, V-E+F=2, positive volume after a whole pass) need merge/swap under "
+         "the edge set after every renumbering; split_edge requests four triangles that join the new node to the four old ones, wound and labelled "
+         "like the triangle they replace; check_face_winding_order leaves the shared edge traversed in opposite directions; can_be_merged answers by "
+         "the number of common neighbours of the two end nodes (link condition). swap_edge is only exercised by a BOUNDED native check (face cache "
+         "and orientation after swapping every edge of an icosphere), never counted as proved. Unbounded "
+         "in mesh size for the contracts. The global statements (two faces per edge everywhere, V-E+F=2, positive volume after a whole pass) need merge/swap under "
          "contract too and are NOT decided."),
    design='6 C01', technique='contract-based deductive verification: own VC generator over the clang AST (std::set<edge> model, quantified data invariants, ghost clock, covers) + SMT (E-matching) + sympy; native ASan replay of refuted obligations',
    note=NOTE_COMMON + " merge_edge / swap_edge / can_be_merged topology is not under contract; the induction from the local contracts to whole-surface manifoldness is not made."),
